@@ -598,6 +598,8 @@ pub fn generate(tier: &str, rng: &mut Rng) -> (Vec<String>, bool) {
             },
         }
     }
+    // the same requests at scales 2^-12 .. 2^-15 (variances a few orders of magnitude above EPS)
+    crate::cases::add_scaled(&mut e.out, 7, &[12, 13, 14, 15], &["xs", "ys"]);
     (e.out, true)
 }
 
